@@ -169,6 +169,205 @@ pub fn static_body(op: Op, nullable: bool, arg: FieldValue, p: FieldValue) {
     assert!(!ok || m, "static hint never excludes a value that passes the filter");
 }
 
+/// Mandatory-edge classification for folds: `fold_requires_at_least_one_element` (hints/filters.rs)
+/// tells adapters that a folded edge must exist at least once. An adapter may then discard vertices
+/// without that edge, which is only sound if every count that passes the fold's count filters is >= 1,
+/// i.e. an empty fold (count 0) can never pass.
+pub mod mandatory {
+    use super::*;
+    use std::num::NonZeroUsize;
+    use trustfall_core::ir::{
+        EdgeParameters, Eid, FoldSpecificFieldKind, IRFold, IRQueryComponent, Vid,
+    };
+    use crate::c22::{Op as COp, passes as cpasses};
+
+    fn vid(i: usize) -> Vid { Vid::new(NonZeroUsize::new(i).unwrap()) }
+    fn eid(i: usize) -> Eid { Eid::new(NonZeroUsize::new(i).unwrap()) }
+
+    fn mk_fold(filters: Vec<Operation<FoldSpecificFieldKind, Argument>>) -> IRFold {
+        let comp = Arc::new(IRQueryComponent {
+            root: vid(2),
+            vertices: BTreeMap::new(),
+            edges: BTreeMap::new(),
+            folds: BTreeMap::new(),
+            outputs: BTreeMap::new(),
+        });
+        IRFold {
+            eid: eid(1),
+            from_vid: vid(1),
+            to_vid: vid(2),
+            edge_name: Arc::from("e"),
+            parameters: EdgeParameters::default(),
+            component: comp,
+            imported_tags: vec![],
+            fold_specific_outputs: BTreeMap::new(),
+            post_filters: filters,
+        }
+    }
+
+    fn mk_filter(op: COp) -> Operation<FoldSpecificFieldKind, Argument> {
+        let var = Argument::Variable(VariableRef {
+            variable_name: Arc::from("v"),
+            variable_type: Type::new_named_type("Int", false),
+        });
+        match op {
+            COp::Eq => Operation::Equals(FoldSpecificFieldKind::Count, var),
+            COp::Ne => Operation::NotEquals(FoldSpecificFieldKind::Count, var),
+            COp::Lt => Operation::LessThan(FoldSpecificFieldKind::Count, var),
+            COp::Le => Operation::LessThanOrEqual(FoldSpecificFieldKind::Count, var),
+            COp::Gt => Operation::GreaterThan(FoldSpecificFieldKind::Count, var),
+            COp::Ge => Operation::GreaterThanOrEqual(FoldSpecificFieldKind::Count, var),
+        }
+    }
+
+    fn any_int_arg(signed: bool) -> (FieldValue, i128) {
+        if signed {
+            let a: i64 = kani::any();
+            (FieldValue::Int64(a), a as i128)
+        } else {
+            let a: u64 = kani::any();
+            (FieldValue::Uint64(a), a as i128)
+        }
+    }
+
+    /// One count filter `count <op> $v`.
+    pub fn single_body(op: COp, signed: bool) {
+        let (arg, a) = any_int_arg(signed);
+        let mut vars: BTreeMap<Arc<str>, FieldValue> = BTreeMap::new();
+        vars.insert(Arc::from("v"), arg);
+        let fold = mk_fold(vec![mk_filter(op)]);
+        let mandatory = h::fold_requires_at_least_one_element(&vars, &fold);
+        std::mem::forget(fold);
+        std::mem::forget(vars);
+        let empty_passes = cpasses(op, 0, a);
+        kani::cover!(mandatory, "witness: fold classified as mandatory");
+        kani::cover!(empty_passes, "witness: an empty fold passes the count filter");
+        assert!(!mandatory || !empty_passes, "a fold reported as requiring at least one element cannot pass its count filters when empty");
+    }
+
+    /// Two count filters against the same variable.
+    pub fn two_body(op1: COp, op2: COp, signed: bool) {
+        let (arg, a) = any_int_arg(signed);
+        let mut vars: BTreeMap<Arc<str>, FieldValue> = BTreeMap::new();
+        vars.insert(Arc::from("v"), arg);
+        let fold = mk_fold(vec![mk_filter(op1), mk_filter(op2)]);
+        let mandatory = h::fold_requires_at_least_one_element(&vars, &fold);
+        std::mem::forget(fold);
+        std::mem::forget(vars);
+        let empty_passes = cpasses(op1, 0, a) && cpasses(op2, 0, a);
+        kani::cover!(mandatory, "witness: fold classified as mandatory (two filters)");
+        assert!(!mandatory || !empty_passes, "a fold reported as requiring at least one element cannot pass its count filters when empty");
+    }
+
+    /// `count one_of $v` with a list of integers.
+    pub fn one_of_body(list: FieldValue) {
+        let mut zero_listed = false;
+        if let FieldValue::List(xs) = &list {
+            let mut i = 0;
+            while i < xs.len() {
+                if r::num(&xs[i]) == Some(0) {
+                    zero_listed = true;
+                }
+                i += 1;
+            }
+        }
+        let mut vars: BTreeMap<Arc<str>, FieldValue> = BTreeMap::new();
+        vars.insert(Arc::from("v"), list);
+        let var = Argument::Variable(VariableRef {
+            variable_name: Arc::from("v"),
+            variable_type: Type::new_list_type(Type::new_named_type("Int", false), false),
+        });
+        let fold = mk_fold(vec![Operation::OneOf(FoldSpecificFieldKind::Count, var)]);
+        let mandatory = h::fold_requires_at_least_one_element(&vars, &fold);
+        std::mem::forget(fold);
+        std::mem::forget(vars);
+        kani::cover!(mandatory, "witness: fold classified as mandatory (one_of)");
+        kani::cover!(zero_listed, "witness: zero is one of the listed counts");
+        assert!(!mandatory || !zero_listed, "a fold whose count may be 0 per one_of is not mandatory");
+    }
+
+    pub mod probe {
+        use super::*;
+        g!(m_gt, 4, single_body(COp::Gt, true););
+        g!(m_ge_u, 4, single_body(COp::Ge, false););
+        g!(m_oneof, 5, one_of_body(mkv!([I, U])););
+    }
+}
+
+/// Numeric-only view of a candidate (integer tags produce integer bounds): no recursion into the
+/// value type, so a candidate of unknown variant stays cheap to inspect.
+pub mod numview {
+    use super::*;
+
+    fn nb_start(b: Bound<&FieldValue>, p: i128) -> bool {
+        match b {
+            Bound::Unbounded => true,
+            Bound::Included(s) => match r::num(s) { Some(x) => x <= p, None => false },
+            Bound::Excluded(s) => match r::num(s) { Some(x) => x < p, None => false },
+        }
+    }
+    fn nb_end(b: Bound<&FieldValue>, p: i128) -> bool {
+        match b {
+            Bound::Unbounded => true,
+            Bound::Included(e) => match r::num(e) { Some(x) => p <= x, None => false },
+            Bound::Excluded(e) => match r::num(e) { Some(x) => p < x, None => false },
+        }
+    }
+    /// is the integer `p` a member of the candidate?
+    pub fn member_num(c: &CandidateValue<FieldValue>, p: i128) -> bool {
+        match c {
+            CandidateValue::Impossible => false,
+            CandidateValue::All => true,
+            CandidateValue::Single(v) => r::num(v) == Some(p),
+            CandidateValue::Multiple(vs) => {
+                let mut found = false;
+                let mut i = 0;
+                while i < vs.len() {
+                    if r::num(&vs[i]) == Some(p) { found = true; }
+                    i += 1;
+                }
+                found
+            }
+            CandidateValue::Range(rg) => nb_start(rg.start_bound(), p) && nb_end(rg.end_bound(), p),
+            _ => false,
+        }
+    }
+
+    pub fn passes_num(op: Op, p: i128, a: i128) -> bool {
+        match op {
+            Op::Eq => p == a, Op::Ne => p != a, Op::Lt => p < a, Op::Le => p <= a, Op::Gt => p > a, Op::Ge => p >= a,
+            _ => panic!("not a numeric comparison"),
+        }
+    }
+
+    pub fn dyn_body(op: Op, signed_tag: bool) {
+        let (tag, a): (FieldValue, i128) = if signed_tag { let a: i64 = kani::any(); (FieldValue::Int64(a), a as i128) } else { let a: u64 = kani::any(); (FieldValue::Uint64(a), a as i128) };
+        let ps: i64 = kani::any();
+        let p = ps as i128;
+        let ok = passes_num(op, p, a);
+        let operation = mk_unit_op(op);
+        let cand = h::dynamic_candidate(&operation, CandidateValue::All, Some(tag));
+        let m = member_num(&cand, p);
+        std::mem::forget(cand);
+        kani::cover!(ok, "witness: property value passes the filter");
+        kani::cover!(!m, "witness: hint excludes some value");
+        assert!(!ok || m, "dynamic hint never excludes a value that passes the filter");
+    }
+
+    pub mod probe {
+        use super::*;
+        #[kani::proof]
+        #[kani::unwind(1)]
+        #[kani::stub(std::fmt::format, crate::stub_format)]
+        #[kani::stub(std::sync::Arc::drop_slow, crate::stub_arc_drop_slow)]
+        pub fn nv_ge_u1() {
+            dyn_body(Op::Ge, true);
+            kani::cover!(true, "witness: end of harness reached");
+        }
+        g!(nv_ge, 3, dyn_body(Op::Ge, true););
+    }
+}
+
 pub mod probe {
     use super::*;
 
